@@ -110,7 +110,9 @@ HTML_TAGS = ["a", "b", "i", "p", "div", "span", "table", "tr", "td", "th", "tbod
              "title", "style", "script", "noscript", "xmp", "iframe", "noembed", "noframes", "plaintext", "br", "hr",
              "img", "input", "meta", "link", "form", "button", "h1", "h2", "nobr", "font", "em", "strong", "ruby",
              "rt", "rp", "svg", "math", "html", "head", "body", "frameset", "frame", "applet", "marquee", "object",
-             "listing", "image", "isindex", "template", "main", "section", "address", "base", "embed", "area"]
+             "listing", "image", "isindex", "template", "main", "section", "address", "base", "embed", "area",
+             # names with a colon (minidom splits them), braces (Clark notation of etree tags), non-ASCII case pairs
+             "o:p", "x:li", "a:b:c", "x}y", "x}", "a{b}c", "{u}v"]
 FOREIGN_TAGS = ["svg", "math", "foreignObject", "desc", "title", "mi", "mo", "mn", "ms", "mtext", "annotation-xml",
                 "g", "path", "circle", "mglyph", "malignmark", "style", "script", "font", "a",
                 "param", "source", "input", "link", "area", "col", "track", "base"]   # void names in foreign content
@@ -130,7 +132,9 @@ TEXT_SRC = ["x", "hello world", " ", "\n", "  \t\n ", "&amp;", "&lt;b&gt;", "&no
             "\u00a0x", "y\u00a0", "\u2003", "&nbsp; z &nbsp;", "\u3000w\u000b", "\x1c"]
 MISC_SRC = ["<!-- c -->", "<!---->", "<!-- a--b -->", "<!>", "<?pi?>", "<![CDATA[x]]>", "<!DOCTYPE html>",
             '<!DOCTYPE html PUBLIC "-//W3C//DTD HTML 4.01//EN" "http://www.w3.org/TR/html4/strict.dtd">',
-            "<!doctype html SYSTEM 'about:legacy-compat'>", "</", "</ >", "<a/>", "<br/>", "< "]
+            "<!doctype html SYSTEM 'about:legacy-compat'>", "</", "</ >", "<a/>", "<br/>", "< ",
+            "<!DOCTYPE html PUBLIC \"-//W3C//DTD HTML 4.01//EN\" 'say \"hi\"'>", "<!DOCTYPE html SYSTEM 'a\"b'>",
+            "<!DOCTYPE html PUBLIC \"-//W3C//DTD HTML 4.01 Transitional//EN\" \"\">", "<!DOCTYPE html PUBLIC '-//W3C//DTD HTML 4.01 Frameset//EN' ''>"]
 
 
 def soup(rng, maxparts=12, foreign=True):
